@@ -306,6 +306,27 @@ def run(ctx):
             ctx.violation(msg, {'function': 'history', 'history': [list(e) for e in hist]})
         if i < 1:
             ctx.sample({'history': [list(e) for e in hist[:12]], 'hook': obs[:8]})
+    # ---- the 8-bit segmentation reference re-used by a new segmented message while an older one, accepted in full, still waits for
+    #      its receipts (the reference generator advances with every message that is not auto_message_payload: 256 messages later)
+    for order in ([501, 502, 503, 504], [503, 504, 501, 502], [501, 503, 502, 504]):
+        hist = [('put', 1, 1, 1, (7, 1, 2)), ('put', 2, 2, 1, (7, 2, 2)), ('resp', 3, 0x80000004, 1, 0, 501), ('resp', 4, 0x80000004, 2, 0, 502),
+                ('put', 5, 3, 2, (7, 1, 2)), ('put', 6, 4, 2, (7, 2, 2)), ('resp', 7, 0x80000004, 3, 0, 503), ('resp', 8, 0x80000004, 4, 0, 504)]
+        hist += [('rcpt', 10 + j, m, 0, 'text') for j, m in enumerate(order)]
+        out, _esme = asyncio.run(run_real(hist))
+        obs = observe(out, None)
+        ctx.traces += 1
+        ctx.case(('reference_reuse', tuple(order)), nontrivial=True)
+        r_obs = obs[4:]
+        last_of = {1: max(order.index(501), order.index(502)), 2: max(order.index(503), order.index(504))}
+        msg = None
+        for log in (1, 2):
+            hits = [j for j, o in enumerate(r_obs) if o[0] == 2 and o[2] == log]
+            if hits != [last_of[log]]:
+                msg = (f'two segmented messages under the same reference (the older one accepted in full and waiting for receipts): receipts in the order '
+                       f'{order} reach the hook for message {log} at receipt positions {hits}, expected exactly one at {last_of[log]}')
+                break
+        if msg:
+            ctx.violation(msg, {'finding_key': 'reference-reuse-while-receipts-pending', 'function': 'history', 'history': [list(e) for e in hist]})
     if proved or not getattr(ctx, 'build_failing', None):
         bad, errs = core.run_cases('C02', 'handlers', IMPORTS, 'fun evs : list hevent => ser_hrun evs', cases, shard=120)
         for fnm, out in errs:
